@@ -33,6 +33,21 @@ local function needs_evaluation(val)
   return true -- lets evaluate it, it could be a call
 end
 
+-- Checks whether brace elision of `{0}` reaches an aggregate without elements before the first scalar.
+local function zero_elision_hits_empty(type)
+  while true do
+    if type.is_array then
+      if type.length == 0 then return true end
+      type = type.subtype
+    elseif type.is_composite then
+      if #type.fields == 0 then return true end
+      type = type.fields[1].type
+    else
+      return false
+    end
+  end
+end
+
 --[[
 Adds literal for type `type` initialized to zeros.
 If `typed` is `true` then a type cast will precede its literal.
@@ -67,6 +82,8 @@ function CEmitter:add_zeroed_type_literal(type, typed)
         s = '{}'
       elseif type.is_record and type.fields[1].type.is_empty then -- first field is an empty record
         s = '{{}}'
+      elseif zero_elision_hits_empty(type) then -- `{0}` would initialize an empty aggregate with 0
+        s = '{}'
       end
     end
   end
